@@ -1,6 +1,6 @@
 (* C19 — functools.partial objects get the signature Python actually enforces. *)
 From Sigtools.Model Require Import Base Bind Roles Algebra.
-From Sigtools.Proofs Require Import SmallModel Basics.
+From Sigtools.Proofs Require Import SmallModel Basics Deciders.
 
 Theorem C19_wf s n kw pobj r : sig_partial s n kw pobj = Ok r -> validate (params r) = true.
 Proof. exact (sig_partial_wf s n kw pobj r). Qed.
@@ -13,3 +13,16 @@ Print Assumptions C19_only_value_errors.
 Theorem C19_small_model sigs s c : In s sigs -> accepts s (rep_for sigs c) = accepts s c.
 Proof. exact (accepts_rep sigs s c). Qed.
 Print Assumptions C19_small_model.
+
+Theorem C19_exact_decider_complete r s n names0 :
+  partial_exact_cex r s n names0 = None ->
+  forall c, noncolliding c r [s] = true ->
+            accepts r c = accepts s (partial_call n names0 c).
+Proof. exact (partial_exact_cex_complete r s n names0). Qed.
+Print Assumptions C19_exact_decider_complete.
+
+Theorem C19_none_decider_complete s n names0 :
+  partial_none_cex s n names0 = None ->
+  forall c, accepts s (partial_call n names0 c) = false.
+Proof. exact (partial_none_cex_complete s n names0). Qed.
+Print Assumptions C19_none_decider_complete.
